@@ -287,7 +287,7 @@ def run(ctx):
     from mc import pairs  # noqa: PLC0415
 
     ops = [["gen", t] for t in ("< L < MDLN > < SOFTREV > >", "< L < SVID > >", "< L RPT < L < RPTID > < L V < V > > > >", "< CEID >", "< L < DATAID > < CEID > < L RPT < L < RPTID > < L < V > > > > >")]
-    pair_execs = pairs.run_part(ctx, ops, "C19", 2 if ctx.thorough else 1)
+    pair_execs = pairs.run_part(ctx, ops, "C19", 1)  # (two delays over these long operations cost more than the whole enumeration)
     ctx.run_cases(check_case, cases(ctx), "c19", chunk=32)
 
 
